@@ -45,6 +45,10 @@ def run(chk):
     import vlib
     globals()["vlib"] = vlib
     _run_small(chk)
+    # index paths after ROLLBACK / ROLLBACK TO (undo has to maintain every index): transaction-focused exploration
+    st = relrun.focus_phase(chk, relevant, signature, "Gen_TxnFocus.cfg", 9 if chk.tier == "thorough" else 8, None if chk.tier == "thorough" else 4000)
+    chk.cov["txn_focus"] = st
+    chk.mark("txn_focus")
     wide_phase(chk)
 
 
